@@ -284,6 +284,7 @@ func specHeaderV4(op int, htype int, hlen int, hops int, xid string, secs int, f
 //@   ensures len(ip) == 16 ==> result == ip
 //@   ensures len(ip) != 4 && len(ip) != 16 ==> result == nil
 //@   ensures result != nil && len(ip) != 16 ==> fresh(result)
+//@   ensures[content] (result == nil) == (len(ip) != 4 && len(ip) != 16) && (len(ip) == 4 ==> string(result) == specZeros(10) + specByte(255) + specByte(255) + string(ip))
 
 // getOption decodes into fresh values, except for the caller-supplied vendor decoder, which is decoded into in place
 // (the documented exception of C20: observers that take user-supplied decoders are read-only only if those are).
